@@ -1,7 +1,7 @@
 """C06 Every sampler is handed the Gaussian log-likelihood of the binned model."""
 import ast
 
-from sa.helpers import (mkflow, spec, code, one, calls, bind_call, param_env,
+from sa.helpers import (the_return, mkflow, spec, code, one, calls, bind_call, param_env,
                         fmt, atom_of, unparse, walk_no_nested)
 from sa.index import AnalysisError, FuncInfo, ClassInfo
 from sa.algebra import RF, Conv, Table
@@ -76,7 +76,7 @@ def loglike(ix, R, tag, site, name, thorough=False):
             'observed spectrum, sigma)/2 with sigma = observed.errorBar')
     with R.guard('1.%s' % tag, 'ALG', s, stmt):
         outer, f, fl = closure_flow(ix, site, name)
-        r = one(fl.of('return'), 'return')
+        r = the_return(fl)
         v = r.value
         at = atom_of(fl, v)
         if at is not None and at.head == 'tuple':
